@@ -59,23 +59,23 @@ func c10Fail(kind string) string {
 	}
 }
 
-type sessOp struct {
+type c10Op struct {
 	Kind string
 	K    string
 	N    int
 }
 
-func parseSessOps(raw [][]any) []sessOp {
-	var ops []sessOp
+func parseSessOps(raw [][]any) []c10Op {
+	var ops []c10Op
 	for _, r := range raw {
 		n, _ := r[2].(float64)
-		ops = append(ops, sessOp{Kind: r[0].(string), K: r[1].(string), N: int(n)})
+		ops = append(ops, c10Op{Kind: r[0].(string), K: r[1].(string), N: int(n)})
 	}
 	return ops
 }
 
 // c10Inputs builds the full history and marks which inputs are failing ones.
-func c10Inputs(ops []sessOp) (inputs []string, failing []bool) {
+func c10Inputs(ops []c10Op) (inputs []string, failing []bool) {
 	for _, p := range c10Prelude {
 		inputs = append(inputs, p)
 		failing = append(failing, false)
@@ -121,7 +121,7 @@ func c10Run(inputs []string, failing []bool) (with, without []inObs, failedAsExp
 	return
 }
 
-func c10Sig(ops []sessOp) string {
+func c10Sig(ops []c10Op) string {
 	for _, op := range ops {
 		if op.Kind == "fail" {
 			return "failed-input-visible-after-" + op.K
@@ -158,7 +158,7 @@ func checkC10(c *Ctx) {
 		return
 	}
 	type hcase struct {
-		ops    []sessOp
+		ops    []c10Op
 		inputs []string
 		fail   []bool
 	}
@@ -213,15 +213,15 @@ func checkC10(c *Ctx) {
 	goods := []string{"print", "loop", "call", "define", "incr"}
 	fails := []string{"err-nested-calls", "err-in-top-loop", "err-in-nested-loops", "panic-in-function", "depth-overflow", "memory-guard"}
 	for i := 0; i < c.Pick(150, 3000); i++ {
-		var ops []sessOp
+		var ops []c10Op
 		for j := 0; j < 4+rng.Intn(10); j++ {
 			if rng.Intn(2) == 0 {
-				ops = append(ops, sessOp{"good", goods[rng.Intn(len(goods))], 1})
+				ops = append(ops, c10Op{"good", goods[rng.Intn(len(goods))], 1})
 			} else {
-				ops = append(ops, sessOp{"fail", fails[rng.Intn(len(fails))], 1 + rng.Intn(10)})
+				ops = append(ops, c10Op{"fail", fails[rng.Intn(len(fails))], 1 + rng.Intn(10)})
 			}
 		}
-		ops = append(ops, sessOp{"good", "loop", 1}, sessOp{"good", "print", 1})
+		ops = append(ops, c10Op{"good", "loop", 1}, c10Op{"good", "print", 1})
 		in, fl := c10Inputs(ops)
 		cases = append(cases, hcase{ops, in, fl})
 	}
